@@ -294,7 +294,7 @@ def plan(tier, seed):
                 continue
             cfgs.append(dict(shape="gen", a=a, flowidx=mode[0], absolute=mode[1], waits=mode[2], N=n1, delay0=[0, 1], finish=3))
     # every configuration once more with long fixed workloads (state that only breaks after hundreds of packets)
-    nlong = explore.add_long(cfgs, 300 if quick else 1000)
+    nlong = explore.add_long(cfgs, 300 if quick else 1000, burst=1100)
     ndebug = explore.add_debug_variants(cfgs)      # the same with every element constructed with debug=True
     return {"cfgs": cfgs, "budget": None,
             "bound": ("%d long fixed workloads (periodic arrival patterns); %d configurations repeated with debug=True; " % (nlong, ndebug)) + ("N<=%d packets per workload; %d single elements, %d ordered chains, demux/switch/splitter/hub configurations, "
@@ -322,7 +322,7 @@ def execute(ch, cfg):
     class Front:
         def put(self, pkt):
             pkt.src = srcname(pkt.flow_id)
-            pkt.payload = ("payload", pkt.packet_id)
+            pkt.payload = {"payload": pkt.packet_id, "fmt": "{} {0} %s"}      # opaque to every element
             entry.put(pkt)
     env.process(net.driver(ch, cfg["N"], items, Front(), long_gap=40))
     saved = random.uniform
